@@ -572,6 +572,26 @@ Section Network.
     {| n_input := n_input n; n_layers := n_layers n; n_loopbacks := n_loopbacks n;
        n_loopacc := loop; n_connect := n_connect n; n_skipacc := skip;
        n_optimizer := n_optimizer n; n_objective := n_objective n |}.
+  (* Network::set_activation(layer, activation): replaces the activation of a dense / convolution /
+     deconvolution layer; panics on an index out of bounds, on max-pool layers and on feedback blocks *)
+  Definition set_activation (n : network) (i : nat) (a : activation) : res network :=
+    do l <- (match nth_error (n_layers n) i with Some l => Ok l | None => Panic P_explicit end);
+    do l' <- (match l with
+              | LDense d => Ok (LDense {| d_inputs := d_inputs d; d_outputs := d_outputs d; d_loops := d_loops d;
+                                          d_weights := d_weights d; d_bias := d_bias d; d_act := a;
+                                          d_dropout := d_dropout d; d_training := d_training d |})
+              | LConv c => Ok (LConv {| c_inputs := c_inputs c; c_outputs := c_outputs c; c_loops := c_loops c;
+                                        c_kernels := c_kernels c; c_stride := c_stride c; c_padding := c_padding c;
+                                        c_dilation := c_dilation c; c_act := a; c_dropout := c_dropout c;
+                                        c_flatten := c_flatten c; c_training := c_training c |})
+              | LDeconv c => Ok (LDeconv {| dc_inputs := dc_inputs c; dc_outputs := dc_outputs c; dc_loops := dc_loops c;
+                                            dc_kernels := dc_kernels c; dc_stride := dc_stride c;
+                                            dc_padding := dc_padding c; dc_act := a; dc_dropout := dc_dropout c;
+                                            dc_flatten := dc_flatten c; dc_training := dc_training c |})
+              | _ => Panic P_explicit
+              end);
+    Ok (set_layers n (set_nth (n_layers n) i l')).
+
   (* direct assignment of the public fields `loopbacks` / `connect` (as the crate's examples do) *)
   Definition set_loopbacks (n : network) (l : list (nat * (nat * nat * bool))) : network :=
     {| n_input := n_input n; n_layers := n_layers n; n_loopbacks := l;
